@@ -22,6 +22,7 @@ func runC27(w *World, r *Report) {
 	defer c27WholePassphrase(w, r)
 
 	r.Rule("R-C27-5", "what a decrypt tree hands to its text decoder (base64 / hex DecodeString) is the caller's ciphertext itself, the ciphertext with a constant-length head sliced off, or strings.TrimPrefix / CutPrefix of it: no other text function stands between the input and the decoder, so exactly one text decodes to the authenticated bytes", 2)
+	r.Rule("R-C27-6", "an encrypted text is decoded only from its canonical form: in the decrypt trees every successful return after a base64 DecodeString lies behind the true edge of EncodeToString(decoded bytes) == the text that was decoded", 1)
 	r.Rule("R-C27-1", "every nil-error return in a decrypt call tree returns text derived from AEAD.Open's plaintext (or a tree function's result) and is unreachable once that call's nil-error edge is removed", 6)
 	r.Rule("R-C27-2", "every decrypt call tree contains a call of cipher.AEAD.Open reachable from its entry point", 2)
 	r.Rule("R-C27-3", "key provenance: the key given to aes.NewCipher in a decrypt tree is, on every path (all phi edges, all stored values, all call sites), computed from the caller's passphrase parameter; a key from any other source (a cache, a constant) lets a different passphrase decrypt", 2)
@@ -63,10 +64,47 @@ func runC27(w *World, r *Report) {
 		visit(entry)
 
 		c27DecoderInput(w, r, rel, order)
+		c27CanonicalText(w, r, rel, order)
 
 		hasOpen := false
 
+		// a tree function that cannot reach AEAD.Open (a text decoder, a key
+		// derivation) is not a decryption: its results are not plaintext, and
+		// its own returns are not judged as such
+		opens := map[*ssa.Function]bool{}
+
+		for changed := true; changed; {
+			changed = false
+
+			for _, fn := range order {
+				if opens[fn] {
+					continue
+				}
+
+				allInstrs(fn, func(in ssa.Instruction) {
+					if c, ok := in.(*ssa.Call); ok {
+						if cf := calleeFunction(c.Common()); isAEADOpen(c) || cf != nil && opens[cf] {
+							if !opens[fn] {
+								opens[fn] = true
+								changed = true
+							}
+						}
+					}
+				})
+			}
+		}
+
+		for fn := range tree {
+			if !opens[fn] {
+				delete(tree, fn)
+			}
+		}
+
 		for _, fn := range order {
+			if !opens[fn] {
+				continue
+			}
+
 			allInstrs(fn, func(in ssa.Instruction) {
 				if c, ok := in.(*ssa.Call); ok && isAEADOpen(c) {
 					hasOpen = true
@@ -75,7 +113,50 @@ func runC27(w *World, r *Report) {
 
 			for _, ret := range returnsOf(fn) {
 				res := retResults(ret)
-				if len(res) != 2 || !isNilConst(res[1]) {
+				if len(res) != 2 {
+					continue
+				}
+
+				// an error that is nil on some incoming edge only (a named result
+				// left unset by a switch without default): the text on that edge
+				// has to be authenticated text all the same
+				if ep, isPhi := stripValue(res[1]).(*ssa.Phi); isPhi {
+					tp, _ := stripValue(res[0]).(*ssa.Phi)
+
+					for i, e := range ep.Edges {
+						if !isNilConst(stripValue(e)) {
+							continue
+						}
+
+						text := res[0]
+						if tp != nil && tp.Block() == ep.Block() {
+							text = tp.Edges[i]
+						}
+
+						key := fnKey(fn) + "|nil-error-edge"
+
+						authenticated := derivesFrom(text, func(v ssa.Value) bool {
+							c, idx := resultOf(v)
+							if c == nil || idx != 0 {
+								return false
+							}
+
+							cf := calleeFunction(c.Common())
+
+							return isAEADOpen(c) || cf != nil && tree[cf]
+						}, nil)
+
+						if authenticated {
+							r.Discharge("R-C27-1", key, w.pos(ret.Pos()), "")
+						} else {
+							r.Violate("R-C27-1", key, w.pos(ret.Pos()), "on one path into this return the error is nil and the text does not come from an authenticated decryption: an input that no branch decrypts (for instance one shorter than every format) is reported as successfully decrypted to empty text")
+						}
+					}
+
+					continue
+				}
+
+				if !isNilConst(res[1]) {
 					continue
 				}
 
@@ -431,31 +512,68 @@ func c27DecoderInput(w *World, r *Report, rel string, tree []*ssa.Function) {
 				return ok
 			}
 
-			verdict := ""
+			classify := func(arg ssa.Value) string {
+				verdict := ""
 
-			switch x := arg.(type) {
-			case *ssa.Parameter:
-				verdict = "the ciphertext parameter itself"
-			case *ssa.Slice:
-				if isParam(x.X) && x.High == nil {
-					if _, isC := constInt(x.Low); isC || x.Low == nil {
-						verdict = "the ciphertext with a constant-length marker sliced off"
+				switch x := arg.(type) {
+				case *ssa.Parameter:
+					verdict = "the ciphertext parameter itself"
+				case *ssa.Slice:
+					if isParam(x.X) && x.High == nil {
+						if _, isC := constInt(x.Low); isC || x.Low == nil {
+							verdict = "the ciphertext with a constant-length marker sliced off"
+						}
+					}
+				case *ssa.Call:
+					cid := callID(x.Common())
+					if (cid == "strings.TrimPrefix" || cid == "strings.CutPrefix") && len(x.Call.Args) == 2 && isParam(x.Call.Args[0]) {
+						verdict = "strings.TrimPrefix of the ciphertext"
+					}
+				case *ssa.Extract:
+					if xc, ok := x.Tuple.(*ssa.Call); ok && callID(xc.Common()) == "strings.CutPrefix" && x.Index == 0 && isParam(xc.Call.Args[0]) {
+						verdict = "strings.CutPrefix of the ciphertext"
 					}
 				}
-			case *ssa.Call:
-				cid := callID(x.Common())
-				if (cid == "strings.TrimPrefix" || cid == "strings.CutPrefix") && len(x.Call.Args) == 2 && isParam(x.Call.Args[0]) {
-					verdict = "strings.TrimPrefix of the ciphertext"
+
+				if verdict == "" && !derivesFrom(arg, isParam, func(string) bool { return true }) {
+					verdict = "not computed from a parameter (an internal constant or intermediate)"
 				}
-			case *ssa.Extract:
-				if xc, ok := x.Tuple.(*ssa.Call); ok && callID(xc.Common()) == "strings.CutPrefix" && x.Index == 0 && isParam(xc.Call.Args[0]) {
-					verdict = "strings.CutPrefix of the ciphertext"
-				}
+
+				return verdict
 			}
 
-			if verdict == "" && !derivesFrom(arg, isParam, func(string) bool { return true }) {
-				verdict = "not computed from a parameter (an internal constant or intermediate)"
+			// a decoding helper: the text is its parameter, and what matters is
+			// what each caller in the tree hands it
+			if p, isP := arg.(*ssa.Parameter); isP && len(tree) > 0 && fn != tree[0] {
+				idx := -1
+
+				for i, q := range fn.Params {
+					if q == p {
+						idx = i
+					}
+				}
+
+				for _, caller := range tree {
+					allInstrs(caller, func(ci ssa.Instruction) {
+						cc, ok := ci.(*ssa.Call)
+						if !ok || calleeFunction(cc.Common()) != fn || idx < 0 || idx >= len(cc.Call.Args) {
+							return
+						}
+
+						ckey := fnKey(caller) + "|decoder input through " + fnKey(fn)
+
+						if v := classify(cc.Call.Args[idx]); v != "" {
+							r.Discharge("R-C27-5", ckey, w.pos(cc.Pos()), v)
+						} else {
+							r.Violate("R-C27-5", ckey, w.pos(cc.Pos()), "the text handed to the decoder is computed from the ciphertext by something other than slicing off a constant-length marker ("+valueName(cc.Call.Args[idx])+"): texts other than the genuine ciphertext decode to the same authenticated bytes and are accepted, or genuine ciphertexts stop decoding")
+						}
+					})
+				}
+
+				return
 			}
+
+			verdict := classify(arg)
 
 			if verdict != "" {
 				r.Discharge("R-C27-5", key, w.pos(c.Pos()), verdict)
